@@ -195,6 +195,37 @@ def present_model(h, outs):
     return cur
 
 
+def present_ids(h, outs):
+    """creation indices (into kids) of the children the element should hold after h, in insertion order"""
+    cur, ids, nkid = [], [], -1
+    for op, out in zip(h, outs):
+        k = op[0]
+        if k in ('add', 'addf', 'rep', 'set', 'repc'):
+            nkid += 1
+        if out != 'ok':
+            continue
+        if k in ('add', 'addf'):
+            cur.append(op[1]); ids.append(nkid)
+        elif k == 'rm':
+            del cur[op[1]]; del ids[op[1]]
+        elif k == 'rep':
+            cur[op[1]] = op[2]; ids[op[1]] = nkid
+        elif k == 'repc':
+            ids[op[1]] = nkid
+        elif k == 'rmk':
+            if op[1] in ids:
+                j = ids.index(op[1]); del cur[j]; del ids[j]
+        elif k == 'set':
+            if op[1] in cur:
+                ids[cur.index(op[1])] = nkid
+            else:
+                cur.append(op[1]); ids.append(nkid)
+        elif k == 'unset':
+            if op[1] in cur:
+                j = cur.index(op[1]); del cur[j]; del ids[j]
+    return ids
+
+
 def parikh(names):
     d = {}
     for n in names:
@@ -243,6 +274,13 @@ def histories(alphabet, k_add, with_rm=True, with_rep=True, dup_names=(), k_afte
                     yield tuple(seq) + (('repc', j),)
                     yield tuple(seq) + (('rep', j, a), ('rmk', j))
                     yield tuple(seq) + (('rm', j), ('rmk', j))
+    # shortcut syntax: xml_a = child / xml_a = None after up to min(k_add, 2) adds
+    for k in range(0, (min(k_add, 2) if len(alphabet) <= 8 else 1) + 1):
+        for seq in itertools.product(adds, repeat=k):
+            for a in alphabet:
+                yield tuple(seq) + (('set', a),)
+                if any(op[1] == a for op in seq):
+                    yield tuple(seq) + (('unset', a),)
     for a in dup_names:
         for i in range(0, 3):
             for k in range(0, max(0, k_add - 1) + 1):
